@@ -63,7 +63,7 @@ def _run_chunk(args):
         seed = core.run_seed(verif_seed, pid, tier, idx)
         faulthandler.dump_traceback_later(180, exit=True)
         try:
-            scn = mod.gen(seed, tier)
+            scn = mod.gen(seed, tier, idx) if getattr(mod, "GEN_TAKES_INDEX", False) else mod.gen(seed, tier)
             res = mod.execute(scn)
         except HarnessError as e:
             faulthandler.cancel_dump_traceback_later()
